@@ -47,11 +47,14 @@ RESERVED_OPCODES = (3, 4, 5, 6, 7, 11, 12, 13, 14, 15)
 
 def valid_server_header(fin, rsv1, rsv2, rsv3, opcode, mask, plen, compression):
     """what a client must accept from a server (5.1: unmasked; 5.2: rsv/opcode; 5.5: control frames
-    <= 125 bytes and not fragmented; 5.2: most significant bit of a 64-bit length must be 0)"""
+    <= 125 bytes and not fragmented; 5.2: most significant bit of a 64-bit length must be 0;
+    RFC 7692 6.1: RSV1 only with the extension and never on control frames)"""
     return And(
         Not(Or(*[opcode == r for r in RESERVED_OPCODES])),
         rsv2 == 0, rsv3 == 0,
-        Or(rsv1 == 0, compression),
+        # RSV1 has a negotiated meaning only under permessage-deflate, and there only on data
+        # messages (RFC 7692 6.1: MUST NOT be set on control frames)
+        Or(rsv1 == 0, And(compression, Not(is_control(opcode)))),
         Implies(is_control(opcode), And(fin == 1, plen <= 125)),
         mask == 0,
         plen < 2 ** 63,
